@@ -85,7 +85,10 @@ class ConfigSpec:
         verb = self.verb_term
         if not isinstance(verb, str):
             verb = I.P.defs['TelemetryVerbosity'].variants[pr.ev(verb)][0]
-        return {'methods': ms, 'prefix': self.prefix, 'verbosity': verb.upper(), 'literals': self.literals, 'comments': self.comments, 'chain': self.chain, 'prologue': False}
+        cfg = {'methods': ms, 'prefix': self.prefix, 'verbosity': verb.upper(), 'literals': self.literals, 'comments': self.comments, 'chain': self.chain, 'prologue': False}
+        if getattr(self, 'prologue_code', None):
+            cfg['prologue_code'] = self.prologue_code
+        return cfg
 
 
 class BlockScenario(AstChecksBase):
@@ -324,3 +327,95 @@ class AstChecks:
 
 for _n in ('replay_kwargs', 'print_input', 'print_output', 'oracles', 'check_path'):
     setattr(AstChecksBase, _n, getattr(AstChecks, _n))
+
+
+# ---------------------------------------------------------------------------------------------
+# whole-program scenario
+
+from grammars import StmtGrammar, StmtPolicy
+
+PROLOGUE_JS = ';__PROLOGUE__;'
+
+
+class ProgramScenario(AstChecksBase):
+    """Symbolic Program (Script or Module) through BlockTransformVisitor::visit_mut_program
+    (+ optionally LiteralVisitor through get_literals)."""
+
+    def __init__(self, sp, cfgspec, kinds=('Script',), prologue=True, literals=False):
+        self.sp = sp
+        self.cfgspec = cfgspec
+        self.kinds = list(kinds)
+        self.prologue = prologue
+        self.literals = literals
+
+    def grammar(self, ctx, program):
+        return StmtGrammar(ctx, program, self.sp)
+
+    def prologue_stmts(self, g):
+        P = g.P
+        sd = P.defs['Stmt']
+        ed = P.defs['Expr']
+        sp = models.mkspan(7000, 7001)
+        ident = Adt('Ident', None, [models.mkspan(7002, 7010), Adt('SyntaxContext', None, [0]), StrV('__PROLOGUE__'), False])
+        return VecV([Adt('Stmt', sd.vindex('Empty'), [Adt('EmptyStmt', None, [sp])]),
+                     Adt('Stmt', sd.vindex('Expr'), [Adt('ExprStmt', None, [models.mkspan(7002, 7011), Ptr(Cell(Adt('Expr', ed.vindex('Ident'), [ident])), (), 'box')])])])
+
+    def make_program(self, g, materialise=False):
+        P = g.P
+        ctx = g.ctx
+        pd = P.defs['Program']
+        if len(self.kinds) > 1:
+            key = 'var:PROGRAM'
+            if key in ctx.decisions:
+                kind = ctx.decisions[key]
+            else:
+                kind = self.kinds[ctx.choose([True] * len(self.kinds), 'program kind')]
+                ctx.decisions[key] = kind
+        else:
+            kind = self.kinds[0]
+        if materialise:
+            body = materialise_input(g, 'Vec<Stmt>' if kind == 'Script' else 'Vec<ModuleItem>', 'P.body', (0, 0), (kind, 'body'))
+        else:
+            body = g.make('Vec<Stmt>' if kind == 'Script' else 'Vec<ModuleItem>', 'P.body', (0, 0), (kind, 'body'))
+        inner = Adt(kind, None, [g.make_span('P.span', None), body, models.none()])
+        return Adt('Program', pd.vindex(kind), [inner])
+
+    def run(self, I):
+        g = I.grammar
+        c = self.cfgspec
+        cfgspec = ConfigSpec(c.entries, c.prefix, c.verbosity, c.literals, c.comments, c.chain)
+        cfg = cfgspec.build(I)
+        if self.prologue:
+            cfg.fields[I.P.defs['Config'].index('file_prefix_code')] = self.prologue_stmts(g)
+        cfgspec.prologue_code = PROLOGUE_JS if self.prologue else None
+        H = BlockHarness(I, cfg)
+        prog = self.make_program(g)
+        out = H.visit_program(prog)
+        return {'out': out, 'H': H, 'cfgspec': cfgspec, 'I': I}
+
+    def input_tree(self, res):
+        return self.make_program(res['I'].grammar, materialise=True)
+
+    def print_input(self, pr, inp):
+        return self.print_program(pr, inp)
+
+    def print_output(self, pr, out):
+        return self.print_program(pr, out)
+
+    def print_program(self, pr, p):
+        s = pr.program(p)
+        if pr.variant_name(p) == 'Module':
+            s += '\nexport {};'
+        return s
+
+    def oracles(self, I, ctx, res, inv, outv, er, erased):
+        vs = []
+        vs += O.check_C02_program(inv, er, erased)
+        vs += O.check_C03(er)
+        vs += O.check_C15_C12(outv, to_view(res['H'].status(), I.P.defs), O.count_hooks(outv))
+        vs += O.check_C12_program(inv, outv, to_view(res['H'].status(), I.P.defs))
+        vs += O.check_C05_names(er, res['cfgspec'].terms)
+        vs += O.check_C06_program(outv, res['cfgspec'].prefix)
+        vs += O.check_C07(inv, outv)
+        vs += O.check_C04(inv, outv, er, erased, res['cfgspec'].terms)
+        return vs, 8 + len(er.hooks)
